@@ -16,7 +16,7 @@ func (c13) Runs(tier string) int {
 	if tier == "thorough" {
 		return 15000000
 	}
-	return 1000000
+	return 600000
 }
 func (c13) Rule() string {
 	return "history of 1-20 ops: Push batches mixing stacks (native, alias, alias with String, pointer to alias, pointer to native), Conditions and primitives, no-nesting set/clear/toggle on a Stack and on a Condition, SetExpression of stacks and primitives, occasional Pop/Remove; non-trivial = a stack value was offered while no-nesting was set AND another while it was clear; distinct = hash(op sequence with option state and lengths)"
